@@ -360,6 +360,293 @@ def gen(ctx):
     return cases
 
 
+# ---------------------------------------------------------------- call routes and configuration delivery
+# The statement speaks of "the output" of a stylesheet abbreviation under a configuration; it does not single out one entry
+# point.  The package exports several ways to get that output (public names of emmet/__init__.py, the counterparts of
+# upstream Emmet's expand / parseStylesheet / resolveStylesheet / stringifyStylesheet):
+#   expand(abbr, dict [, global dict]) | expand(abbr, Config) | expand_stylesheet(abbr, Config) |
+#   the two-step route  parse_stylesheet_abbreviation(abbr) -> stylesheet_abbreviation(tree, Config) -> stringify_stylesheet(tree, Config)
+#   (abbr may also be a token list made by css_abbreviation.tokenize).
+# Every route must print the same property lines.  The names below are the harness' own; nothing is read from the library.
+ROUTES = ['expand-dict', 'expand-config', 'expand-stylesheet', 'two-step', 'two-step-tokens', 'two-step-two-configs']
+# Where the options come from.  Layer order (most specific wins, a layer replaces a key as a whole), as documented for
+# Emmet's config resolution and stated in property C20: built-in < type defaults < syntax defaults < global config for the
+# type < global config for the syntax < the call's own config.
+DELIVERIES = ['call', 'global-type', 'global-syntax', 'split', 'shadowed', 'global-shadowed']
+
+
+def decoy(v):
+    """a value of the same shape that would visibly change the output if a less specific layer won"""
+    if isinstance(v, bool):
+        return not v
+    if isinstance(v, str):
+        return 'zz'
+    if isinstance(v, dict):
+        return {'p': 'zz', 'e': 'zz', 'x': 'zz', 'r': 'zz', 'q': 'zz'}
+    if isinstance(v, list):
+        return ['margin', 'color', 'top']
+    return v
+
+
+def deliver(cfg, delivery):
+    """(call config dict, global config dict) that denote the configuration `cfg`, the options arriving by `delivery`"""
+    conf = cfg.impl_config()
+    opts = conf.pop('options')
+    own, gsyn, gtyp = {}, {}, {}
+    if delivery == 'call':
+        own = opts
+    elif delivery == 'global-type':
+        gtyp = opts
+    elif delivery == 'global-syntax':
+        gsyn = opts
+    elif delivery == 'split':
+        for i, k in enumerate(sorted(opts)):
+            (own, gsyn, gtyp)[i % 3][k] = opts[k]
+    elif delivery == 'shadowed':
+        own = opts
+        gsyn = {k: decoy(v) for k, v in opts.items()}
+        gtyp = dict(gsyn)
+    elif delivery == 'global-shadowed':
+        gsyn = opts
+        gtyp = {k: decoy(v) for k, v in opts.items()}
+    else:
+        raise ValueError(delivery)
+    if own or delivery == 'call':
+        conf['options'] = own
+    glob = {}
+    if gtyp:
+        glob['stylesheet'] = {'options': gtyp}
+    if gsyn:
+        glob[cfg.syntax] = {'options': gsyn}
+    return conf, glob
+
+
+def call_route(route, abbr, conf, glob):
+    """the text one documented route prints (raises what the library raises)"""
+    import emmet
+    from emmet import Config
+    if route == 'expand-dict':
+        return emmet.expand(abbr, conf, glob) if glob else emmet.expand(abbr, conf)
+    if route == 'expand-config':
+        return emmet.expand(abbr, Config(conf, glob))
+    if route == 'expand-stylesheet':
+        return emmet.expand_stylesheet(abbr, Config(conf, glob))
+    c = Config(conf, glob)
+    if route == 'two-step-tokens':
+        from emmet.css_abbreviation import tokenize
+        tree = emmet.parse_stylesheet_abbreviation(tokenize(abbr))
+    else:
+        tree = emmet.parse_stylesheet_abbreviation(abbr)
+    resolved = emmet.stylesheet_abbreviation(tree, c)
+    c2 = Config(conf, glob) if route == 'two-step-two-configs' else c
+    return emmet.stringify_stylesheet(resolved, c2)
+
+
+class RouteRunner(su.ImplRunner):
+    """su.ImplRunner for any (route, delivery): one `cache` dict per (configuration, delivery) so the snippet table is
+    converted once; the units that resolve_numeric_value writes into cached snippet tokens are restored after every call
+    (same reasoning as in ImplRunner).  Failures are always settled in a pristine interpreter (`settle`)."""
+
+    def run(self, route, delivery, abbr, cfg):
+        k = (cfg.key(), delivery)
+        st = self.state.get(k)
+        if st is None:
+            st = {'cache': {}, 'numbers': None}
+            self.state[k] = st
+        conf, glob = deliver(cfg, delivery)
+        conf['cache'] = st['cache']
+        try:
+            r = ('ok', call_route(route, abbr, conf, glob))
+        except Exception as e:
+            r = su.classify_exc(e, len(abbr))
+        if st['numbers'] is None and 'stylesheet_snippets' in st['cache']:
+            from emmet.stylesheet import convert_snippets
+            from emmet.config import Config
+            fconf, fglob = deliver(cfg, delivery)
+            fresh = convert_snippets(Config(fconf, fglob).snippets)
+            st['cache']['stylesheet_snippets'] = fresh
+            st['numbers'] = self._numbers(fresh)
+        elif st['numbers']:
+            for tok, unit in st['numbers']:
+                tok.unit = unit
+        return r
+
+
+def _route_chunk(chunk):
+    rr = RouteRunner()
+    return [rr.run(route, delivery, abbr, cfg) for route, delivery, cfg, abbr in chunk]
+
+
+def run_jobs(jobs):
+    """RouteRunner over (route, delivery, cfg, abbr) jobs, in parallel processes (order preserved).  Returns the results and,
+    per job, the index of the first job that ran before it in the same worker process (its possible history)."""
+    jobs = list(jobs)
+    if len(jobs) < 2000:
+        return _route_chunk(jobs), [0] * len(jobs)
+    import multiprocessing
+    procs = common.NPROC
+    size = max(400, (len(jobs) + procs * 2 - 1) // (procs * 2))
+    bounds = list(range(0, len(jobs), size))
+    chunks = [jobs[i:i + size] for i in bounds]
+    with multiprocessing.get_context('fork').Pool(procs) as pool:
+        outs = pool.map(_route_chunk, chunks)
+    return [x for o in outs for x in o], [b for b, o in zip(bounds, outs) for _ in o]
+
+
+# ---------------------------------------------------------------- pristine interpreters (failures are settled there)
+def seq_server():
+    """Runs in an interpreter of its own (started by Pristine).  It imports the library but never calls it; every request
+    -- a JSON list of [route, delivery, config, abbreviation] calls -- is run in a forked child with one RouteRunner, so a
+    request sees exactly the state its own earlier calls left behind.  Answer: the outcome of the LAST call."""
+    import sys
+    import emmet  # noqa: F401  (import only)
+    for line in sys.stdin:
+        rd, wr = os.pipe()
+        pid = os.fork()
+        if pid == 0:
+            os.close(rd)
+            try:
+                rr = RouteRunner()
+                out = None
+                for route, delivery, cj, abbr in json.loads(line):
+                    out = rr.run(route, delivery, abbr, Cfg.from_json(cj))
+                data = json.dumps(list(out))
+            except BaseException as e:
+                data = json.dumps(['harness-error', repr(e)[:300]])
+            os.write(wr, data.encode())
+            os._exit(0)
+        os.close(wr)
+        buf = b''
+        while True:
+            part = os.read(rd, 65536)
+            if not part:
+                break
+            buf += part
+        os.close(rd)
+        os.waitpid(pid, 0)
+        sys.stdout.write(buf.decode() + '\n')
+        sys.stdout.flush()
+
+
+class Pristine:
+    """client of seq_server (started on first use: a clean tree never starts it)"""
+    BOOT = 'import sys; sys.setrecursionlimit(10000); sys.path.insert(0, %r); from props import c05; c05.seq_server()'
+
+    def __init__(self):
+        self.p = None
+
+    def ask(self, seq):
+        import subprocess
+        if self.p is None:
+            env = dict(os.environ, PYTHONPATH=common.REPO, PYTHONHASHSEED='0', PYTHONDONTWRITEBYTECODE='1')
+            self.p = subprocess.Popen([common.PY, '-c', self.BOOT % common.HERE], stdin=subprocess.PIPE, stdout=subprocess.PIPE,
+                                      text=True, env=env)
+        self.p.stdin.write(json.dumps([[route, delivery, cfg.to_json(), abbr] for route, delivery, cfg, abbr in seq]) + '\n')
+        self.p.stdin.flush()
+        line = self.p.stdout.readline()
+        if not line:
+            return ('harness-error', 'pristine server died')
+        return tuple(json.loads(line))
+
+    def close(self):
+        if self.p is not None:
+            self.p.stdin.close()
+            self.p.wait()
+            self.p = None
+
+
+MAX_REPORTS = 12          # failing inputs settled and reported per run (the smallest ones)
+MAX_HISTORY_SEARCHES = 2  # failures that need the calls made before them: searched for the shortest such history
+
+
+def settle(ctx, fails):
+    """Turn the failures seen in the worker processes into replayable reports.  Each is re-run ALONE in a pristine
+    interpreter; when it fails only after the calls made before it in its worker, that history is cut down (halving) to a
+    short prelude which the replay file carries.  The statement is about one call; a prelude is part of the concrete input
+    sequence on which that call's output breaks it."""
+    if not fails:
+        return
+    fails.sort(key=lambda f: len(f['jobs'][f['idx']][3]) + len(json.dumps(f['jobs'][f['idx']][2].to_json())))
+    pr = Pristine()
+    reported = searches = 0
+    loose = []
+    try:
+        for f in fails:
+            if reported >= MAX_REPORTS:
+                break
+            job = f['jobs'][f['idx']]
+            route, delivery, cfg, s = job
+            exp = f['exp']
+            r = pr.ask([job])
+            bad = c05_oracle(s, cfg, exp, r)
+            prelude = []
+            if not bad:
+                if searches >= MAX_HISTORY_SEARCHES:
+                    continue
+                searches += 1
+                cur = f['jobs'][f['start']:f['idx']]
+                r = pr.ask(cur + [job])
+                bad = c05_oracle(s, cfg, exp, r)
+                if not bad:
+                    loose.append((job, f['r']))
+                    continue
+                while len(cur) > 1:
+                    h = len(cur) // 2
+                    for part in (cur[h:], cur[:h]):
+                        rp = pr.ask(part + [job])
+                        b2 = c05_oracle(s, cfg, exp, rp)
+                        if b2:
+                            cur, r, bad = part, rp, b2
+                            break
+                    else:
+                        break
+                prelude = cur
+            reported += 1
+            conf, glob = deliver(cfg, delivery)
+            plain = (route, delivery) == ('expand-dict', 'call')
+            key = ('c05:%s:%s' % (cfg.key(), s)) if plain else 'c05:route:%s:%s:%s:%s' % (route, delivery, cfg.key(), s)
+            what = ('stylesheet expand(%r) under %s' % (s, cfg.to_json())) if plain else (
+                'stylesheet abbreviation %r via route %s, options from %s (config %r, global %r)' % (s, route, delivery, conf, glob))
+            rep = {'input': s, 'config': cfg.to_json(), 'expected': exp, 'impl': repr(r)[:300], 'why': bad}
+            if not plain:
+                rep['route'], rep['delivery'] = route, delivery
+            if prelude:
+                what += ' after %d earlier call(s) in the same process' % len(prelude)
+                rep['prelude'] = [{'route': a, 'delivery': b, 'config': c.to_json(), 'input': d} for a, b, c, d in prelude]
+            ctx.property_failure(key, what + ': ' + bad, rep)
+    finally:
+        pr.close()
+    if reported == 0:
+        for (route, delivery, cfg, s), r in loose[:3] or [(fails[0]['jobs'][fails[0]['idx']], fails[0]['r'])]:
+            ctx.broken.append({'kind': 'failure-not-reproduced-in-a-pristine-process', 'file': 'harness/props/c05.py', 'input': s,
+                               'config': cfg.to_json(), 'route': route, 'delivery': delivery, 'impl': repr(r)[:300]})
+
+
+def route_jobs(ctx, cases):
+    """Which (route, delivery) each generated case is ALSO sent through (the plain expand(abbr, dict) with the options in
+    the call's own config is the main stream).  Every case draws one other combination; cases carrying `!`, a colour or
+    several properties -- the parts of a parsed tree a route could lose -- and a slice of the rest draw every route."""
+    rng = ctx.rng
+    quick = ctx.tier == 'quick'
+    jobs = []      # (case index, route, delivery)
+    for i, (cfg, s, exp, tag) in enumerate(cases):
+        if cfg.context is not None or cfg.tabstop:
+            continue
+        has_opts = bool(cfg.options)
+        while True:
+            route, delivery = rng.choice(ROUTES), (rng.choice(DELIVERIES) if has_opts else 'call')
+            if (route, delivery) != ('expand-dict', 'call'):
+                break
+        jobs.append((i, route, delivery))
+        rich = ('!' in s or '+' in s) and rng.random() < (0.5 if quick else 1.0)
+        if rich or rng.random() < (0.06 if quick else 0.3):
+            for r2 in ROUTES:
+                d2 = rng.choice(DELIVERIES) if has_opts else 'call'
+                if r2 != route and (r2, d2) != ('expand-dict', 'call'):
+                    jobs.append((i, r2, d2))
+    return jobs
+
+
 def split_values(line, prop, between, after):
     """value part of an output line, or None"""
     if not line.startswith(prop + between):
@@ -411,7 +698,12 @@ def run(ctx):
         'hex digits and #t, with/without .N alpha) joined by the connectors the statement defines (`-` after a unitless number or a '
         'colour, juxtaposition / sign after a unit), optional `!`, `+`-joined; css/scss/sass/less/sss/stylus x intUnit/floatUnit/'
         'unitAliases/shortHex/unitless option sets.  Oracle: output == expected line computed from the description by the documented '
-        'rules (colour compared by value).  Tie: output string of the Coq model of the full pipeline.  Non-trivial: every case '
+        'rules (colour compared by value).  Call routes: every case is also sent through one (cases with `!` / `+` and a slice of '
+        'the rest: through all) of the other exported routes -- expand(abbr, Config), expand_stylesheet(abbr, Config), the two-step '
+        'parse_stylesheet_abbreviation -> stylesheet_abbreviation -> stringify_stylesheet (string or token-list input, one or two '
+        'equal Config objects) -- with the options arriving in the call config, the global config section of the type, of the '
+        'syntax, split over the three layers, or shadowing decoy values in less specific layers; same expected line (oracle '
+        'only, the model has no notion of a route).  Tie: output string of the Coq model of the full pipeline.  Non-trivial: every case '
         '(each has at least one number or colour); distinct by (configuration, abbreviation).')
     stale = check_live_table(ctx)
     if stale:
@@ -419,10 +711,12 @@ def run(ctx):
         ctx.broken.append({'kind': 'generator-table', 'file': 'harness/props/c05.py', 'detail': repr(stale[:5])})
     cases = gen(ctx)
     pairs = [(c, s) for c, s, _, _ in cases]
-    impl = su.impl_expand_many(pairs)
+    main_jobs = [('expand-dict', 'call', c, s) for c, s in pairs]
+    impl, main_starts = run_jobs(main_jobs)
     runner = su.ImplRunner()
+    fails = []
     nfail = 0
-    for (cfg, s, exp, tag), r in zip(cases, impl):
+    for j, ((cfg, s, exp, tag), r) in enumerate(zip(cases, impl)):
         ctx.count_eval()
         ctx.nontrivial((cfg.key(), s))
         ctx.cover('c05:' + tag)
@@ -437,17 +731,33 @@ def run(ctx):
             ctx.cover('c05:dash-separator')
         if re.search(r'[a-z%]-\d', s):
             ctx.cover('c05:dash-sign')
-        bad = c05_oracle(s, cfg, exp, r)
-        if bad:
-            # confirm on a completely fresh configuration (no shared cache)
-            r2 = su.impl_expand(s, cfg)
-            bad = c05_oracle(s, cfg, exp, r2)
-            if bad:
-                nfail += 1
-                ctx.property_failure('c05:%s:%s' % (cfg.key(), s), 'stylesheet expand(%r) under %s: %s' % (s, cfg.to_json(), bad),
-                                     {'input': s, 'config': cfg.to_json(), 'expected': exp, 'impl': repr(r2)[:300], 'why': bad})
+        if c05_oracle(s, cfg, exp, r):
+            nfail += 1
+            fails.append({'jobs': main_jobs, 'start': main_starts[j], 'idx': j, 'exp': exp, 'r': r})
+    # the other documented call routes and the other ways the options can arrive (oracle only: the model is tied to the
+    # same (configuration, abbreviation) pairs in the main stream; a route has no counterpart in the model)
+    jobs = route_jobs(ctx, cases)
+    rjobs = [(route, delivery, cases[i][0], cases[i][1]) for i, route, delivery in jobs]
+    routed, rstarts = run_jobs(rjobs)
+    nroute = 0
+    for j, ((i, route, delivery), r) in enumerate(zip(jobs, routed)):
+        cfg, s, exp, tag = cases[i]
+        ctx.count_eval()
+        ctx.cover('c05:route:' + route)
+        ctx.cover('c05:options-from:' + delivery)
+        if '!' in s and route.startswith('two-step'):
+            ctx.cover('c05:route:two-step-with-important')
+        if c05_oracle(s, cfg, exp, r):
+            nroute += 1
+            fails.append({'jobs': rjobs, 'start': rstarts[j], 'idx': j, 'exp': exp, 'r': r})
+    settle(ctx, fails)
+    ctx.cov['correspondence']['c05_main_vs_statement'] = {'cases': len(cases), 'disagreements': nfail}
+    ctx.cov['correspondence']['c05_routes_vs_statement'] = {'cases': len(jobs), 'disagreements': nroute}
     for (cfg, s, exp, tag), r in list(zip(cases, impl))[-6:]:
         ctx.sample({'input': s, 'config': cfg.to_json(), 'expected': exp, 'impl': repr(r)[:160]})
+    for (i, route, delivery), r in list(zip(jobs, routed))[-3:]:
+        ctx.sample({'input': cases[i][1], 'config': cases[i][0].to_json(), 'route': route, 'delivery': delivery,
+                    'expected': cases[i][2], 'impl': repr(r)[:160]})
     runner_cases = pairs[:200]
     chk = [runner.expand(s, c) for c, s in runner_cases]
     runner.selfcheck(ctx, runner_cases, chk, rate=0.1)
@@ -474,7 +784,20 @@ def replay(ctx, obj):
         print('replay names a broken obligation, no input: %s' % rp)
         return 1
     cfg = Cfg.from_json(rp.get('config', {}))
-    r = su.impl_expand(s, cfg)
+    route, delivery = rp.get('route', 'expand-dict'), rp.get('delivery', 'call')
+    if route not in ROUTES or delivery not in DELIVERIES:
+        print('replay names an unknown route/delivery: %s' % rp)
+        return 1
+    rr = RouteRunner()
+    prelude = rp.get('prelude') or []
+    for pj in prelude:
+        rr.run(pj.get('route', 'expand-dict'), pj.get('delivery', 'call'), pj['input'], Cfg.from_json(pj.get('config', {})))
+    r = rr.run(route, delivery, s, cfg)
     bad = c05_oracle(s, cfg, rp['expected'], r)
-    print('css expand(%r) under %s -> %r ; expected %r : %s' % (s, cfg.to_json(), r, rp['expected'], bad or 'property holds'))
+    conf, glob = deliver(cfg, delivery)
+    if prelude:
+        print('after %d earlier call(s) in this process: %s' % (len(prelude), '; '.join(
+            '%r via %s/%s under %s' % (pj['input'], pj.get('route', 'expand-dict'), pj.get('delivery', 'call'), pj.get('config')) for pj in prelude[:5])))
+    print('css %r via route %s, options from %s (call config %r, global config %r) -> %r ; expected %r : %s'
+          % (s, route, delivery, conf, glob, r, rp['expected'], bad or 'property holds'))
     return 1 if bad else 0
